@@ -1,14 +1,236 @@
-(* C19 — serialisation round trips.  Property theorems only; statements are about the executable
-   model SC.C19.Model, tied to src/linalg/naive/dense_matrix.rs (hand-written codec and PartialEq)
-   and to the other hand-written PartialEq impls by the correspondence check.  The derived serde
-   impls and the format crates are not modelled: that part of C19 is decided by the search. *)
-From Coq Require Import List String NArith Bool Permutation.
-From SC Require Import Base.Num C19.Model C19.ProofsCodec.
+(* C19 — serialisation round trips.  Property theorems only; every statement is about the executable
+   model SC.C19.Model, which the correspondence check ties to src/linalg/naive/dense_matrix.rs (the
+   hand-written Serialize / Deserialize / PartialEq) and to the other hand-written PartialEq impls.
+   The derived serde impls and the format crates (bincode, serde_json) are generated / third-party
+   code: no theorem here covers them; that part of C19 is decided by the failing-input search. *)
+From Coq Require Import List String NArith ZArith Bool Permutation Reals Floats.
+From SC Require Import Base.Num C19.Model C19.ProofsCodec C19.ProofsEq C19.ProofsFloat.
 Import ListNotations.
 Open Scope string_scope. Open Scope list_scope.
 
-(* Sequence form (bincode, JSON arrays): the three values in emission order give the matrix back,
-   for every shape and every stored vector (no relation between them is needed). *)
-Theorem C19_dm_seq_roundtrip : forall T (m : dm T),
-  visit_seq (map snd (fields_of (dm_serialize m))) = Ok m.
-Proof. intros; apply seq_roundtrip. Qed.
+(* ------------------------------- the DenseMatrix codec ------------------------------- *)
+
+(* Sequence form (what bincode and JSON arrays hand to visit_seq): the three values in emission
+   order give the matrix back, for every shape and every stored vector (no relation between the
+   shape and the number of values is needed); trailing elements are not the visitor's business. *)
+Theorem C19_dm_seq_roundtrip : forall T (m : dm T) rest,
+  visit_seq (map snd (fields_of (dm_serialize m)) ++ rest) = Ok m.
+Proof. intros; apply seq_trailing_ignored. Qed.
+
+(* Map form (JSON objects): EVERY order of the three emitted fields gives the matrix back, and
+   nothing else does: the decoder accepts exactly the permutations of the encoder's output. *)
+Theorem C19_dm_map_roundtrip : forall T (m : dm T) kv,
+  visit_map kv = Ok m <-> Permutation kv (fields_of (dm_serialize m)).
+Proof. intros; apply map_ok_iff. Qed.
+
+(* a repeated field after any complete field order: exactly the duplicate-field error *)
+Theorem C19_dm_duplicate_field : forall T (m : dm T) kv k v,
+  Permutation kv (fields_of (dm_serialize m)) -> In k ["nrows"; "ncols"; "values"] ->
+  visit_map (kv ++ [(k, v)]) = Err (DuplicateField k).
+Proof. intros T m kv k v H1 H2. exact (map_duplicate_error m kv k v H1 H2). Qed.
+
+(* any field order with one field left out: exactly the missing-field error for that field *)
+Theorem C19_dm_missing_field : forall T (m : dm T) kv e,
+  Permutation (e :: kv) (fields_of (dm_serialize m)) -> visit_map kv = Err (MissingField (fst e)).
+Proof. intros T m kv e H. exact (map_missing_error m kv e H). Qed.
+
+(* in general: a repeated key, an absent field or a foreign key never yields a matrix *)
+Theorem C19_dm_map_rejects : forall T (kv : list (string * sval T)) m,
+  (~ NoDup (map fst kv)) \/
+  (exists f, In f ["nrows"; "ncols"; "values"] /\ ~ In f (map fst kv)) \/
+  (exists k, In k (map fst kv) /\ ~ In k ["nrows"; "ncols"; "values"]) ->
+  visit_map kv <> Ok m.
+Proof.
+  intros T kv m [H|[[f [H1 H2]]|[k [H1 H2]]]].
+  - now apply map_duplicate_never_ok.
+  - eapply map_missing_never_ok; eassumption.
+  - eapply map_unknown_never_ok; eassumption.
+Qed.
+
+(* sequence form with fewer than three elements is never accepted *)
+Theorem C19_dm_seq_too_short : forall T (s : list (sval T)) m,
+  (List.length s < 3)%nat -> visit_seq s <> Ok m.
+Proof. intros T s m H. now apply seq_short. Qed.
+
+(* through the two format drivers: JSON object in any field order / JSON array; bincode bytes
+   (fixed-width little endian, u64 length prefix, scalars of w bytes), also with trailing bytes *)
+Theorem C19_dm_json_roundtrip : forall T (m : dm T) kv,
+  Permutation kv (fields_of (dm_serialize m)) ->
+  json_de (JObj kv) = Ok m /\ json_de (json_ser m) = Ok m /\ json_de (JArr (map snd (fields_of (dm_serialize m)))) = Ok m.
+Proof.
+  intros T m kv H. split; [now apply json_any_order|]. split; [apply json_roundtrip | apply json_seq_form].
+Qed.
+
+Theorem C19_dm_bincode_roundtrip : forall w (m : dm N) rest,
+  (0 < w)%nat ->
+  (dm_nrows m < 2 ^ 64)%N -> (dm_ncols m < 2 ^ 64)%N -> (N.of_nat (List.length (dm_values m)) < 2 ^ 64)%N ->
+  Forall (fun x => (x < 256 ^ N.of_nat w)%N) (dm_values m) ->
+  bincode_de w (bincode_ser w m ++ rest) = Ok m.
+Proof. exact bincode_roundtrip_gen. Qed.
+
+(* ------------------------------- the PartialEq relations ------------------------------- *)
+
+(* Reflexivity on finite data, for any scalar type whose comparisons satisfy the laws ... *)
+Theorem C19_eq_refl_on_finite : forall T (O : Ops T) (eps : T) (fin : T -> Prop),
+  scalar_laws O eps fin ->
+  (forall m, dm_fin fin m -> dm_eq O eps m m = true) /\
+  (forall m, dm_fin fin (lin_coef m) -> fin (lin_intercept m) -> lin_eq O eps m m = true) /\
+  (forall m, dm_fin fin (lg_coef m) -> dm_fin fin (lg_intercept m) -> Forall fin (lg_classes m) -> logit_eq O eps m m = true) /\
+  (forall t, Forall (rnode_fin fin) (rt_nodes t) -> rtree_eq O eps t t = true) /\
+  (forall t, Forall (cnode_fin fin) (ct_nodes t) -> Forall fin (ct_classes t) -> ctree_eq O eps t t = Some true) /\
+  (forall f, Forall (fun t => Forall (rnode_fin fin) (rt_nodes t)) f -> rforest_eq O eps f f = true) /\
+  (forall f, Forall (fun t => Forall (cnode_fin fin) (ct_nodes t) /\ Forall fin (ct_classes t)) (cf_trees f) ->
+             Forall fin (cf_classes f) -> cforest_eq O eps f f = Some true) /\
+  (forall m, dm_fin fin (pca_eigenvectors m) -> Forall fin (pca_eigenvalues m) -> pca_eq O eps m m = true) /\
+  (forall m, fin (svm_b m) -> Forall fin (svm_w m) -> Forall (Forall fin) (svm_instances m) -> svm_eq O eps m m = true) /\
+  (forall m, Forall (Forall fin) (km_centroids m) -> kmeans_eq O eps m m = true) /\
+  (forall m, fin (db_eps m) -> dbscan_eq O m m = true) /\
+  (forall m, Forall fin (kc_classes m) -> knnc_eq O eps m m = true) /\
+  (forall m, Forall fin (kr_y m) -> knnr_eq O eps m m = true) /\
+  (forall m, Forall fin (bn_labels m) -> Forall fin (bn_priors m) -> Forall (Forall fin) (bn_log_prob m) -> bernoulli_eq O eps m m = true) /\
+  (forall m, Forall fin (cat_labels m) -> Forall fin (cat_priors m) -> Forall (Forall (Forall fin)) (cat_coefficients m) -> categorical_eq O eps m m = true).
+Proof.
+  intros T O eps fin L. repeat split; intros.
+  - now apply (dm_eq_refl O eps fin L).
+  - now apply (lin_eq_refl O eps fin L).
+  - now apply (logit_eq_refl O eps fin L).
+  - now apply (rtree_eq_refl O eps fin L).
+  - now apply (ctree_eq_refl O eps fin L).
+  - now apply (rforest_eq_refl O eps fin L).
+  - now apply (cforest_eq_refl O eps fin L).
+  - now apply (pca_eq_refl O eps fin L).
+  - now apply (svm_eq_refl O eps fin L).
+  - now apply (kmeans_eq_refl O eps fin L).
+  - now apply (dbscan_eq_refl O eps fin L).
+  - now apply (knnc_eq_refl O eps fin L).
+  - now apply (knnr_eq_refl O eps fin L).
+  - now apply (bernoulli_eq_refl O eps fin L).
+  - now apply (categorical_eq_refl O eps fin L).
+Qed.
+
+(* ... and the laws hold for binary64 with machine epsilon on all finite doubles (x - x = +0), and
+   for the reals with any positive tolerance on all reals. *)
+Theorem C19_scalar_laws_binary64 : scalar_laws FOps eps64 ffinite.
+Proof. exact F_laws. Qed.
+Theorem C19_scalar_laws_reals : forall eps : R, (0 < eps)%R -> scalar_laws ROps eps (fun _ => True).
+Proof. exact R_laws. Qed.
+
+(* so, in particular, on the machine's own arithmetic: a DenseMatrix of finite doubles equals itself *)
+Theorem C19_dm_eq_refl_binary64 : forall m : dm float, Forall ffinite (dm_values m) -> dm_eq FOps eps64 m m = true.
+Proof. intros m H. exact (dm_eq_refl FOps eps64 ffinite F_laws m H). Qed.
+
+(* finiteness is needed: a tree node with an infinite output is not equal to itself, a NaN entry
+   makes a matrix equal to any other of its shape, and the tolerance relation is not transitive *)
+Theorem C19_eq_needs_finite :
+  rnode_eq FOps eps64 (leaf infinity) (leaf infinity) = false /\
+  dm_eq FOps eps64 (mkDM 1 1 [nan]) (mkDM 1 1 [5%float]) = true /\
+  (let a := mkDM 1 1 [0%float] in let b := mkDM 1 1 [0x1p-52%float] in let c := mkDM 1 1 [0x1p-51%float] in
+   dm_eq FOps eps64 a b = true /\ dm_eq FOps eps64 b c = true /\ dm_eq FOps eps64 a c = false).
+Proof. split; [exact rnode_inf_not_self|]. split; [exact dm_nan_equals_anything | exact dm_eq_not_transitive]. Qed.
+
+(* Symmetry, for any scalar type with |x - y| = |y - x| (the reals; IEEE subtraction is
+   sign-symmetric too, but that fact is a hypothesis here, not derived from Coq's float axioms). *)
+Theorem C19_eq_symmetric : forall T (O : Ops T) (eps : T), sub_sym O ->
+  (forall a b, dm_eq O eps a b = dm_eq O eps b a) /\
+  (forall a b, lin_eq O eps a b = lin_eq O eps b a) /\
+  (forall a b, logit_eq O eps a b = logit_eq O eps b a) /\
+  (forall a b, rtree_eq O eps a b = rtree_eq O eps b a) /\
+  (forall a b, List.length (ct_classes a) = List.length (ct_classes b) -> ctree_eq O eps a b = ctree_eq O eps b a) /\
+  (forall a b, rforest_eq O eps a b = rforest_eq O eps b a) /\
+  (forall a b, pca_eq O eps a b = pca_eq O eps b a) /\
+  (forall a b, svm_eq O eps a b = svm_eq O eps b a) /\
+  (forall a b, kmeans_eq O eps a b = kmeans_eq O eps b a) /\
+  (forall a b, knnc_eq O eps a b = knnc_eq O eps b a) /\
+  (forall a b, knnr_eq O eps a b = knnr_eq O eps b a) /\
+  (eqb_sym O -> forall a b, dbscan_eq O a b = dbscan_eq O b a).
+Proof.
+  intros T O eps S. repeat split; intros.
+  - now apply dm_eq_sym. - now apply lin_eq_sym. - now apply logit_eq_sym. - now apply rtree_eq_sym.
+  - now apply ctree_eq_sym. - now apply rforest_eq_sym. - now apply pca_eq_sym. - now apply svm_eq_sym.
+  - now apply kmeans_eq_sym. - now apply knnc_eq_sym. - now apply knnr_eq_sym. - now apply dbscan_eq_sym.
+Qed.
+Theorem C19_sub_sym_reals : sub_sym ROps /\ eqb_sym ROps.
+Proof. split; [exact R_sub_sym | exact R_eqb_sym]. Qed.
+(* the length hypothesis of the classifier-tree clause is needed (malformed objects only) *)
+Theorem C19_ctree_eq_asymmetric_on_malformed :
+  let a := mkCTree [] 2 [1%float; 2%float] 0 in let b := mkCTree [] 2 [1%float] 0 in
+  ctree_eq FOps eps64 a b = None /\ ctree_eq FOps eps64 b a = Some true.
+Proof. exact ctree_eq_asymmetric. Qed.
+
+(* What a difference must look like to be detected.  DenseMatrix: shape, number of stored values, or
+   one stored value further than eps from its counterpart — and nothing less (iff). *)
+Theorem C19_eq_detects_different_matrix : forall T (O : Ops T) (eps : T) (a b : dm T),
+  dm_eq O eps a b = true <->
+  dm_ncols a = dm_ncols b /\ dm_nrows a = dm_nrows b /\
+  Forall2 (fun x y => gt_eps O eps x y = false) (dm_values a) (dm_values b).
+Proof. intros; apply dm_eq_true_iff. Qed.
+Theorem C19_eq_detects_different_matrix_reals : forall (eps : R) (a b : dm R),
+  dm_eq ROps eps a b = true <->
+  dm_ncols a = dm_ncols b /\ dm_nrows a = dm_nrows b /\
+  Forall2 (fun x y => (Rabs (x - y) <= eps)%R) (dm_values a) (dm_values b).
+Proof. intros; apply R_dm_eq_iff. Qed.
+
+(* models: a coefficient / the intercept (linear family); a stored target (k-NN: the training rows
+   are never compared); a node's output, split value, split score or feature (trees: the child links
+   are never compared); a support vector (SVC / SVR); a centroid coordinate (k-means); an
+   eigenvalue (PCA: projection, mu, pmu are never compared). *)
+Theorem C19_eq_detects_different_targets : forall T (O : Ops T) (eps : T),
+  (forall a b, le_eps O eps (lin_intercept a) (lin_intercept b) = false -> lin_eq O eps a b = false) /\
+  (forall a b, dm_eq O eps (lin_coef a) (lin_coef b) = false -> lin_eq O eps a b = false) /\
+  (forall a b i x y, nth_error (kr_y a) i = Some x -> nth_error (kr_y b) i = Some y -> gt_eps O eps x y = true ->
+                     knnr_eq O eps a b = false) /\
+  (forall a b i x y, nth_error (kc_y a) i = Some x -> nth_error (kc_y b) i = Some y -> x <> y ->
+                     knnc_eq O eps a b = false) /\
+  (forall a b i x y, nth_error (rt_nodes a) i = Some x -> nth_error (rt_nodes b) i = Some y ->
+                     rnode_eq O eps x y = false -> rtree_eq O eps a b = false) /\
+  (forall a b i x y, nth_error (svm_instances a) i = Some x -> nth_error (svm_instances b) i = Some y ->
+                     vec_approx O eps x y = false -> svm_eq O eps a b = false) /\
+  (forall a b i c1 c2 j x y, nth_error (km_centroids a) i = Some c1 -> nth_error (km_centroids b) i = Some c2 ->
+                     nth_error c1 j = Some x -> nth_error c2 j = Some y -> gt_eps O eps x y = true ->
+                     kmeans_eq O eps a b = false) /\
+  (forall a b i x y, nth_error (pca_eigenvalues a) i = Some x -> nth_error (pca_eigenvalues b) i = Some y ->
+                     gt_eps O eps x y = true -> pca_eq O eps a b = false).
+Proof.
+  intros T O eps. repeat split; intros.
+  - now apply lin_eq_detects_intercept.
+  - now apply lin_eq_detects_coefficient.
+  - eapply knnr_eq_detects_target; eassumption.
+  - eapply knnc_eq_detects_target; eassumption.
+  - eapply rtree_eq_detects_node; eassumption.
+  - eapply svm_eq_detects_instance; eassumption.
+  - eapply kmeans_eq_detects_centroid; eassumption.
+  - eapply pca_eq_detects_eigenvalue; eassumption.
+Qed.
+
+(* DBSCAN's relation sees labels, number of classes and eps — nothing about the points
+   (the known finding dbscan-eq-ignores-points is this theorem read backwards) *)
+Theorem C19_dbscan_eq_sees_only_labels : forall T (O : Ops T) (a b : @dbscan T),
+  dbscan_eq O a b = true ->
+  db_labels a = db_labels b /\ db_num_classes a = db_num_classes b /\ O.(oeqb) (db_eps a) (db_eps b) = true.
+Proof. intros; now apply dbscan_eq_true_inv. Qed.
+
+(* ------------------------------- satisfiability of the hypotheses ------------------------------- *)
+Example C19_ex_roundtrip_nonsquare :
+  let m := mkDM 2 3 [1; 2; 3; 4; 5; 6]%N in
+  let kv := [("values", VSeq [1; 2; 3; 4; 5; 6]%N); ("nrows", VU64 2%N); ("ncols", VU64 3%N)] in
+  Permutation kv (fields_of (dm_serialize m)) /\ visit_map kv = Ok m /\
+  bincode_de 1 (bincode_ser 1 m ++ [7%N]) = Ok m /\
+  visit_map (kv ++ [("ncols", VOther)]) = Err (DuplicateField "ncols") /\
+  visit_map (tl kv) = Err (MissingField "values") /\
+  visit_map (("shape", VOther) :: kv) = Err (UnknownField "shape").
+Proof.
+  cbv zeta. split.
+  - apply (map_ok_perm _ (mkDM 2 3 [1; 2; 3; 4; 5; 6]%N)). reflexivity.
+  - repeat split; vm_compute; reflexivity.
+Qed.
+
+(* finite data exists, and a detected / an undetected difference on the machine's arithmetic *)
+Example C19_ex_finite_and_detected :
+  Forall ffinite [0.5%float; (-0)%float; 0x1.fffffffffffffp+1023%float] /\
+  dm_eq FOps eps64 (mkDM 1 1 [1%float]) (mkDM 1 1 [0x1.0000000000002p+0%float]) = false /\
+  dm_eq FOps eps64 (mkDM 1 1 [1%float]) (mkDM 1 1 [0x1.0000000000001p+0%float]) = true /\
+  gt_eps FOps eps64 1%float 0x1.0000000000002p+0%float = true.
+Proof.
+  split; [|vm_compute; repeat split; reflexivity].
+  repeat constructor; unfold ffinite; vm_compute; exact I.
+Qed.
